@@ -344,12 +344,31 @@ pub fn run_case(case: &str, wasm0: &[u8], version: u16, span: usize, variant: Va
             written_base.insert(*line, b);
         }
     }
-    for (addr, line, end) in &od.rows {
+    if std::env::var("VERIF_DUMP").is_ok() {
+        eprintln!("IN  {:?}", info.seqs.iter().map(|sq| (sq.base, sq.rows.iter().map(|r| (r.addr, r.line, r.func, r.op)).collect::<Vec<_>>(), sq.end)).collect::<Vec<_>>());
+        eprintln!("OUT {:?}", od.rows);
+    }
+    // index of the output sequence each output row belongs to
+    let mut out_seq_of_row: Vec<usize> = vec![];
+    {
+        let mut k = 0;
+        for (_, _, end) in &od.rows {
+            out_seq_of_row.push(k);
+            if *end {
+                k += 1;
+            }
+        }
+    }
+    let mut invented_in_seq: Vec<(usize, u64)> = vec![];
+    let mut clamped_out_seqs: std::collections::HashSet<usize> = Default::default();
+    for (ri, (addr, line, end)) in od.rows.iter().enumerate() {
         if *end {
             continue;
         }
         let Some(r) = by_line.get(line) else {
-            fails.push(("C10:row-invented".into(), format!("output row with line {} that no input row has", line)));
+            // decided below: inside a sequence that was clamped (open finding) the writer's encoding
+            // of the following rows is garbage, line numbers included
+            invented_in_seq.push((out_seq_of_row[ri], *line));
             continue;
         };
         seen_lines.insert(*line);
@@ -368,6 +387,9 @@ pub fn run_case(case: &str, wasm0: &[u8], version: u16, span: usize, variant: Va
                     // its offset is clamped to 0 and every later row of the sequence is then encoded
                     // relative to a decreasing address (gimli's writer cannot express that)
                     let clamped = span > 1 && seq.rows.iter().any(|x| match (out_addr.get(&(x.func, x.op)), base_out) { (Some(w), Some(b)) => *w < b, _ => false });
+                    if clamped {
+                        clamped_out_seqs.insert(out_seq_of_row[ri]);
+                    }
                     fails.push((
                         if clamped { "C10:row-clamped-to-sequence-base-in-multi-function-sequence".into() } else { "C10:row-address-wrong".into() },
                         format!("row line {} (input function {}, operator #{} at {}): output address {}, but that instruction starts at {} in the output", line, r.func, r.op, r.addr, addr, want),
@@ -379,9 +401,34 @@ pub fn run_case(case: &str, wasm0: &[u8], version: u16, span: usize, variant: Va
                     let seq = info.seqs.iter().find(|sq| sq.rows.iter().any(|x| x.line == *line)).unwrap();
                     let base_out = out_addr.get(&(seq.rows[0].func, seq.rows[0].op)).copied();
                     let clamped = span > 1 && seq.rows.iter().any(|x| match (out_addr.get(&(x.func, x.op)), base_out) { (Some(w), Some(b)) => *w < b, _ => false });
+                    if clamped {
+                        clamped_out_seqs.insert(out_seq_of_row[ri]);
+                    }
                     fails.push((if clamped { "C10:row-clamped-to-sequence-base-in-multi-function-sequence".into() } else { "C10:row-for-removed-code".into() }, format!("row line {} belongs to removed code (function {}, operator #{}) but is kept with address {}", line, r.func, r.op, addr)));
                 }
             }
+        }
+    }
+    // an output sequence also counts as clamped when the input sequence it comes from (found through
+    // any row whose line is known) has a live row that lies before the sequence's base in the output
+    for (ri, (_, line, end)) in od.rows.iter().enumerate() {
+        if *end {
+            continue;
+        }
+        if by_line.contains_key(line) {
+            if let Some(seq) = info.seqs.iter().find(|sq| sq.rows.iter().any(|x| x.line == *line)) {
+                let base_out = out_addr.get(&(seq.rows[0].func, seq.rows[0].op)).copied().or_else(|| written_base.get(line).copied());
+                if span > 1 && seq.rows.iter().any(|x| match (out_addr.get(&(x.func, x.op)), base_out) { (Some(w), Some(b)) => *w < b, _ => false }) {
+                    clamped_out_seqs.insert(out_seq_of_row[ri]);
+                }
+            }
+        }
+    }
+    for (sq, line) in invented_in_seq {
+        if clamped_out_seqs.contains(&sq) {
+            fails.push(("C10:row-clamped-to-sequence-base-in-multi-function-sequence".into(), format!("output row with line {} that no input row has, in a sequence whose rows were clamped", line)));
+        } else {
+            fails.push(("C10:row-invented".into(), format!("output row with line {} that no input row has", line)));
         }
     }
     for (line, r) in &by_line {
